@@ -22,6 +22,7 @@ import fandango.evolution.population as POP
 import fandango.language.grammar.nodes.alternative as A
 import fandango.language.grammar.nodes.repetition as R
 import fandango.language.grammar.nodes.terminal as TT
+import fandango.language.grammar.grammar as GR
 
 NCH = int(os.environ.get("H_CHOICES", "6"))
 SPEC = """<start> ::= <A:B:ping> <B:A:count> <A:B:echo>
@@ -75,6 +76,9 @@ class Rnd:
     def random(self):
         return 0.5
 
+    def shuffle(self, seq):
+        pass  # Grammar._extract_k_paths_from_tree shuffles a list whose order does not influence the result
+
 
 def mount(tree, party, nt, msg):
     pred = FORECASTER.predict(tree)
@@ -108,8 +112,8 @@ def history_is_kept(count: str, choices: List[int]) -> bool:
     pm = IoPopulationManager(G, "<start>")
     pm.fuzzable_packets = list(pred["A"].nt_to_packet.values())
     r = Rnd(choices)
-    saved = (A.random, R.random, TT.random, POP.random)
-    A.random = R.random = TT.random = POP.random = r
+    saved = (A.random, R.random, TT.random, POP.random, GR.random)
+    A.random = R.random = TT.random = POP.random = GR.random = r
     try:
         cand = pm._generate_population_entry(20)
         ev = IoEvaluator(G, CS, 1.0, 5, 1.0)
@@ -117,7 +121,7 @@ def history_is_kept(count: str, choices: List[int]) -> bool:
         ys, ret = GeneratorWithReturn(ev.evaluate_individual(cand)).collect()
         fixed, n = pm.fix_individual(cand, ret[2])
     finally:
-        A.random, R.random, TT.random, POP.random = saved
+        A.random, R.random, TT.random, POP.random, GR.random = saved
     if r.i != len(choices):
         raise IgnoreAttempt("unused choices")
     for t in (cand, fixed):
@@ -145,12 +149,12 @@ def reach(count: str, choices: List[int]) -> bool:
     pm = IoPopulationManager(G, "<start>")
     pm.fuzzable_packets = list(pred["A"].nt_to_packet.values())
     r = Rnd(choices)
-    saved = (A.random, R.random, TT.random, POP.random)
-    A.random = R.random = TT.random = POP.random = r
+    saved = (A.random, R.random, TT.random, POP.random, GR.random)
+    A.random = R.random = TT.random = POP.random = GR.random = r
     try:
         cand = pm._generate_population_entry(20)
     finally:
-        A.random, R.random, TT.random, POP.random = saved
+        A.random, R.random, TT.random, POP.random, GR.random = saved
     if r.i != len(choices):
         raise IgnoreAttempt("unused choices")
     return text_of(cand.protocol_msgs()[2].msg) == count
